@@ -47,7 +47,7 @@ PIO_RULES = [
      'struct all_parts_t ap_ = { &rs }; struct all_it e_ = all_end(&ap_); struct all_it it_ = all_begin(&ap_);\n'
      ' for (; !all_it_eq(&it_, &e_); all_it_inc(&it_)) { PIO_TOP struct all_it *x = &it_;', 1),
     (r'\bx\.', 'x->', 5),
-    (r'\(m_files\[x->i\]->\*piof\)\(', 'SUB_PIO(this, x->i, ', 1),
+    (r'\(m_files\[([^\]]+)\]->\*piof\)\(', r'SUB_PIO(this, \1, ', 1),
     (r'\(char\*&\)buf \+= ([^;]+);', r'buf = (char*)buf + (\1);', 1),
 ]
 PIO_MARK = {'count': 1, 0: dict(name='PIO', frame=['it_', 'buf', 'G_LPOS', 'N_SUB'],
